@@ -98,6 +98,8 @@ int rstr_find(struct rstr *rs, char *s, int n, int *grps, int flg)
 			continue;
 		if (rs->wend && r[len] && (!isword(r + len - 1) || isword(r + len)))
 			continue;
+		if (((unsigned char) r[0] & 0xc0) == 0x80 || ((unsigned char) r[len] & 0xc0) == 0x80)
+			continue;	/* inside a multi-byte character */
 		if (!match_case(r, rs->str, rs->icase)) {
 			int i;
 			if (n >= 1) {
